@@ -25,6 +25,17 @@ Record rstmt := mk_rstmt {
   r_handlers : list string
 }.
 
+(* one except clause (or suppress block) *)
+Record hrow := mk_hrow {
+  h_file : string;
+  h_func : string;
+  h_line : nat;
+  h_idx : nat;                (* ordinal of the handler inside the function *)
+  h_caught : list string;
+  h_reraised : list string;   (* classes raised inside the handler body (a bare raise / exc.clone() = the caught classes) *)
+  h_action : string           (* raise | warn | silent *)
+}.
+
 Fixpoint lookup {A} (k : string) (l : list (string * A)) : option A :=
   match l with
   | [] => None
